@@ -2,4 +2,4 @@
 # Build the whole Coq development from /repo's current tree (regen + make). Offline.
 set -e
 cd "$(dirname "$0")"
-exec env PYTHONPATH=/repo PYTHONHASHSEED=0 PYTHONDONTWRITEBYTECODE=1 /venv/bin/python harness/run.py --setup
+exec env PYTHONPATH="${BHW_REPO:-/repo}" PYTHONHASHSEED=0 PYTHONDONTWRITEBYTECODE=1 /venv/bin/python harness/run.py --setup
